@@ -19,7 +19,7 @@ for pid in ALL:
         replay_cmd_template='./check replay {path}',
         engine='coq-proof+correspondence',
         level_claimed=dict(category='proof', text=c['text'], design_ref=c['design_ref']),
-        level_note=c['note'],
+        level_note=c['note'] + c.get('extra_note', ''),
         technique=c['technique']))
 man = dict(
     version=1,
